@@ -12,12 +12,18 @@ import warnings
 warnings.filterwarnings("ignore")
 HERE = os.path.dirname(os.path.dirname(os.path.dirname(os.path.abspath(__file__))))
 sys.path[:0] = [HERE, os.path.join(HERE, ".deps")]
-import atheris  # noqa: E402
+try:
+    import atheris  # noqa: E402
+except ImportError:  # replaying a saved input needs no fuzzer
+    atheris = None
 
 REPO = os.environ.get("PGV_REPO", "/repo")
 sys.path.insert(0, REPO)
-with atheris.instrument_imports(include=["simpletal"]):
-    from simpletal import simpleTAL, simpleTALES  # noqa: E402  (instrumented before anything else imports it)
+if atheris is not None and __name__ == "__main__":
+    with atheris.instrument_imports(include=["simpletal"]):
+        from simpletal import simpleTAL, simpleTALES  # noqa: E402  (instrumented before anything else imports it)
+else:
+    from simpletal import simpleTAL, simpleTALES  # noqa: E402
 
 from pgv import drive  # noqa: E402,F401
 
